@@ -22,6 +22,29 @@ def dense(M):
     return np.asarray(M.todense()) if hasattr(M, "todense") else np.asarray(M)
 
 
+MARGINS = {}
+
+
+def _mg(name, ratio):
+    """record the largest observed deviation/tolerance ratio of a floating-point comparison (1.0 = at the tolerance)"""
+    try:
+        r = float(ratio)
+    except Exception:
+        return
+    if r == r and r != float("inf"):
+        MARGINS[name] = max(MARGINS.get(name, 0.0), r)
+
+
+def _ratio(a, b, tol):
+    a = np.asarray(a, float); b = np.asarray(b, float)
+    if a.shape != b.shape or a.size == 0:
+        return 0.0
+    with np.errstate(all="ignore"):
+        r = np.abs(a - b) / (tol * (1.0 + np.maximum(np.abs(a), np.abs(b))))
+    r = r[np.isfinite(r)]
+    return float(r.max()) if r.size else 0.0
+
+
 # ---------------------------------------------------------------------------------------------- documented reference
 def doc_stencil(order, bc, n):
     """documented 1-D stencil (rows = the statements of the `*_apply` theorems), or None where undocumented"""
@@ -178,6 +201,8 @@ def run_eval(ctx, cuqi, thorough):
             M = np.array([[float(v) for v in row] for row in pm(toks[2])]).reshape(r, c) if toks[2] != "_" and r * c > 0 else np.zeros((r, c))
             scaled = cls != "prec" and third is not None
             same = A.shape == M.shape and (mclose(A, M, 1e-14) if scaled else np.array_equal(A, M))
+            if scaled and A.shape == M.shape:
+                _mg("ctor matrix with float dx vs exact rational (tol 1e-14)", _ratio(A, M, 1e-14))
             if not same:
                 ctx.disagree(key, desc, out[:200], str(A.tolist())[:200], "constructed matrix differs from the model")
                 n = int(arg) if pd == 1 and not isinstance(arg, tuple) else int(arg[0])
@@ -355,6 +380,7 @@ def run_eval(ctx, cuqi, thorough):
                 ctx.disagree(key, desc, mv, None if got is None else got, "log-density is not a finite scalar")
                 ctx.fail(key, desc, ref, str(lp.tolist())[:80], "log-density of a vector is not a finite scalar")
                 continue
+            _mg(f"{fam} logpdf vs LogForm (tol 1e-10)", _ratio(got, mv, 1e-10))
             if not close(got, mv, 1e-10):
                 ctx.disagree(key, desc, mv, got, "log-density differs from the model's LogForm")
                 if ref is not None and not close(got, ref, 1e-9):
@@ -368,6 +394,7 @@ def run_eval(ctx, cuqi, thorough):
                     ctx.fail(key + ":gradient", desc, "a gradient", type(e).__name__, "gradient of a prior on a default 1-D geometry is refused")
                     continue
                 gm = np.array([float(v) for v in pv(grad)])
+                _mg(f"{fam} gradient vs model (tol 1e-10)", _ratio(g, gm, 1e-10))
                 if g.shape != gm.shape or not vclose(g, gm, 1e-10):
                     ctx.disagree(key + ":gradient", desc, grad[:160], g.tolist(), "gradient differs from the model")
                     if Dd is not None:
@@ -454,6 +481,10 @@ def run_chol(ctx, cuqi, thorough):
             A = P if bc == "zero" else P + sqeps * np.eye(dim)
             tol = 1e-12 if bc == "zero" else 1e-8
             scale = max(1.0, np.abs(R).max())
+            if C.shape == R.shape:
+                _mg(f"GMRF._chol vs exact factor, {'zero' if bc == 'zero' else 'regularised'} branch (tol {tol:g} of max entry)", np.abs(C - R).max() / (tol * scale))
+            if S.shape == R.shape:
+                _mg(f"GMRF.sqrtprec vs exact factor, {'zero' if bc == 'zero' else 'regularised'} branch (tol {tol:g} of max entry)", np.abs(S - math.sqrt(prec) * R).max() / (tol * scale * math.sqrt(prec)))
             if C.shape != R.shape or np.abs(C - R).max() > tol * scale:
                 ctx.disagree(key + ":chol", desc, str(R.tolist())[:160], str(C.tolist())[:160], "GMRF._chol^T differs from the exact factor")
                 oracle_factor(key + ":chol", desc, C, A, 1e-9 if bc == "zero" else 1e-7)
@@ -461,6 +492,7 @@ def run_chol(ctx, cuqi, thorough):
                 ctx.disagree(key + ":sqrtprec", desc, "sqrt(prec) * R", str(S.tolist())[:160], "sqrtprec differs from sqrt(prec) times the exact factor")
                 oracle_factor(key + ":sqrtprec", desc, S, prec * A, 1e-9 if bc == "zero" else 1e-7)
             if bc == "zero":
+                _mg("GMRF._logdet vs sum log pivots (tol 1e-11)", _ratio(float(G._logdet), logdet, 1e-11))
                 if not close(float(G._logdet), logdet, 1e-11):
                     ctx.disagree(key + ":logdet", desc, logdet, float(G._logdet), "_logdet differs from the sum of the logs of the exact pivots")
                     sign, ld = np.linalg.slogdet(P)
@@ -514,6 +546,8 @@ def run_chol(ctx, cuqi, thorough):
                         ctx.fail(key + ":refusal", desc, "a factor of a positive definite matrix", ierr, "sparse_cholesky refuses a positive definite matrix")
                 continue
             R, _ = model_R(out)
+            if U.shape == R.shape:
+                _mg("sparse_cholesky direct vs exact factor (tol 1e-12 of max entry)", np.abs(U - R).max() / (1e-12 * max(1.0, np.abs(R).max())))
             if U.shape != R.shape or np.abs(U - R).max() > 1e-12 * max(1.0, np.abs(R).max()):
                 ctx.disagree(key, desc, str(R.tolist())[:160], str(U.tolist())[:160], "sparse_cholesky differs from the exact factor")
                 oracle_factor(key, desc, U, A, 1e-9)
@@ -578,6 +612,7 @@ def run_chol(ctx, cuqi, thorough):
                 ctx.fail(key, desc, "a draw", repr(e)[:160], "a zero-boundary GMRF cannot be sampled")
                 continue
             ref = mean[:, None] + Y / math.sqrt(prec)
+            _mg("GMRF zero-bc draw vs exact back substitution (tol 1e-10)", _ratio(got, ref, 1e-10))
             if fake.calls != 1 or not mclose(got, ref, 1e-10):
                 ctx.disagree(key, desc, str(ref.tolist())[:200], str(got.tolist())[:200], "draw differs from mean + prec^(-1/2) R^(-1) xi of the model")
                 # oracle on the implementation alone (any square root is allowed): feed the unit vectors, recover the linear map
@@ -686,6 +721,7 @@ def run_apply(ctx, cuqi, thorough):
                                  "the documented stencil applied to these numbers is finite, the operator returns inf/nan (product formed in a narrower precision)")
                         continue
                     err = np.abs(got - ref)
+                    _mg("operator @ vector vs documented stencil (tol 1e-9 of largest term)", np.max(err / (1e-9 * big + 1e-300)))
                     if (err > 1e-9 * big + 1e-300).any():
                         i = int(np.argmax(err - 1e-9 * big))
                         ctx.fail(key, desc, [float(u) for u in np.ravel(ref)[:8]], [float(u) for u in np.ravel(got)[:8]],
@@ -721,3 +757,4 @@ def run_ext(ctx, cuqi, thorough):
             except StopIteration:
                 pass
         pending = nxt
+    ctx.extra_cov["c20_margins_dev_over_tol"] = {k: float(f"{v:.3g}") for k, v in sorted(MARGINS.items())}
